@@ -573,6 +573,16 @@ for _v in VARIANTS:
         _v.edits.append(("def get_default_cost() -> CostValues:\n    \"\"\"Get the default event cost vector.\"\"\"\n    return {", "_DEFAULTS: dict = {}\n\n\ndef get_default_cost() -> CostValues:\n    \"\"\"Get the default event cost vector.\"\"\"\n    return _DEFAULTS\n\n\ndef _unused_defaults():\n    return {"))
     if _v.name == "layout-loss-result-dropped":
         _v.edits.append(("                    state[\"anchor_nodes\"].remove(conserv_gene)\n", "                    state[\"anchor_nodes\"].remove(conserv_anchor)\n"))
+
+VARIANTS += [
+    M("layout-filter-dropped", LAYOUT, "            if mapping[root_gene] != root_species:\n                continue\n\n            synteny = (", "            synteny = (", "PLACED-IN-SPECIES"),
+    M("layout-division-by-size", LAYOUT, "across = cons_rect.center().x - size.w / 2", "across = cons_rect.center().x - size.w / size.h", "FINITE-ARITH", "SIGMA-INVARIANCE"),
+    M("layout-max-unguarded", LAYOUT, "        if state[\"branches\"]:\n            if params.orientation == Orientation.VERTICAL:\n                trunk_width = (", "        if True:\n            if params.orientation == Orientation.VERTICAL:\n                trunk_width = (", "FINITE-ARITH"),
+    M("layout-label-of-parent", LAYOUT, "map(tex.escape, syntenies[root_gene]),", "map(tex.escape, syntenies[root_gene.up]),", "LABEL-SOURCE"),
+    M("kahn-queue-nonzero", TOPO, "            if indeg[node_to] == 0:\n                starts.append(node_to)", "            if indeg[node_to] <= 1:\n                starts.append(node_to)", "KAHN-LOOP"),
+    M("kahn-emit-successor", TOPO, "        result.append(node_from)\n\n        for node_to in graph[node_from]:\n            indeg[node_to] -= 1\n", "        for node_to in graph[node_from]:\n            indeg[node_to] -= 1\n            result.append(node_to)\n", "KAHN-LOOP"),
+    T("twin-kahn-pop-right", TOPO, "node_from = starts.popleft()", "node_from = starts.pop()"),
+]
 # the CLI twin needs a second edit (label in reconcile)
 for _v in VARIANTS:
     if _v.name == "twin-cli-label-in-reconcile":
